@@ -27,6 +27,7 @@ type FuncResult struct {
 	Notes    []string
 	Imprecise []string
 	vc       *VC
+	mu       sync.Mutex
 	Dep      bool // included because a function of the property calls it by contract
 	calls    map[*ssa.Function]bool
 }
@@ -394,7 +395,51 @@ func cmdCheck(args []string) int {
 						all = append(all, r)
 					}
 				} else {
-					r, all = solve(qy, j.fr.vc.inputs, to, *tier == "thorough")
+					// sliced query first (sound: fewer assumptions); the full query decides otherwise
+					j.fr.mu.Lock()
+					sq := j.fr.vc.queryWith(ob, j.fr.vc.slicedAsserts(ob))
+					j.fr.mu.Unlock()
+					r = runSolver(solvers[0], "(set-option :produce-models true)\n"+sq+"(check-sat)\n", 3)
+					all = append(all, r)
+					if r.Status == "unsat" {
+						r.Solver = "z3-new(sliced)"
+					} else {
+						// path by path: on one concrete path all state merges collapse
+						j.fr.mu.Lock()
+						paths := j.fr.vc.pathSplits(ob, 96)
+						j.fr.mu.Unlock()
+						decided := false
+						if len(paths) > 0 {
+							allUnsat := true
+							tsum := 0.0
+							for _, lits := range paths {
+								var extra strings.Builder
+								for _, l := range lits {
+									extra.WriteString("(assert " + l + ")\n")
+								}
+								pr, pall := solve(insertBeforeGoal(qy, extra.String()), j.fr.vc.inputs, to, false)
+								tsum += pr.Time
+								all = append(all, pall...)
+								if pr.Status == "sat" {
+									r, decided, allUnsat = pr, true, false
+									break
+								}
+								if pr.Status != "unsat" {
+									allUnsat = false
+									break
+								}
+							}
+							if allUnsat {
+								r = SolverResult{Status: "unsat", Solver: fmt.Sprintf("z3-new(path-split x%d)", len(paths)), Time: tsum}
+								decided = true
+							}
+						}
+						if !decided {
+							var all2 []SolverResult
+							r, all2 = solve(qy, j.fr.vc.inputs, to, *tier == "thorough")
+							all = append(all, all2...)
+						}
+					}
 				}
 				mu.Lock()
 				for _, a := range all {
@@ -500,4 +545,13 @@ func dropQuantified(q string) string {
 		b.WriteByte('\n')
 	}
 	return b.String()
+}
+
+// insertBeforeGoal adds assertions just before the final (goal) assertion.
+func insertBeforeGoal(q, extra string) string {
+	i := strings.LastIndex(strings.TrimRight(q, "\n"), "\n(assert ")
+	if i < 0 {
+		return q + extra
+	}
+	return q[:i+1] + extra + q[i+1:]
 }
